@@ -425,8 +425,9 @@ def fam_ramp_profiles(T=6, thorough=False, seed=0):
 
 
 class RampReal:
-    def __init__(self, c):
+    def __init__(self, c, presetup_mtu=None):
         self.c = c
+        self.presetup_mtu = presetup_mtu
         start = pd.Timestamp(CALENDARS['h'][0])
         self.tg = eao.assets.Timegrid(start, start + c['T'] * pd.Timedelta('1h'), freq='h')
         nodes = [eao.assets.Node('power')] + ([eao.assets.Node('heat')] if c['heat'] else [])
@@ -448,6 +449,14 @@ class RampReal:
         else:
             self.asset = eao.assets.Plant(**kw)
         with quiet():
+            if self.presetup_mtu:
+                # lifecycle prefix: the same object was set up before on a grid with ANOTHER main time unit (a legitimate, different problem
+                # whose result is not used); what that leaves on the object must not reach the set-up under test
+                tg0 = eao.assets.Timegrid(start, start + c['T'] * pd.Timedelta('1h'), freq='h', main_time_unit=self.presetup_mtu)
+                try:
+                    self.asset.setup_optim_problem({'p': np.asarray(c['price'], float)}, tg0)
+                except Exception:
+                    pass
             self.op = self.asset.setup_optim_problem({'p': np.asarray(c['price'], float)}, self.tg)
         self.prob = Problem(self.op)
         m = self.op.mapping
